@@ -87,8 +87,35 @@ def emissionOp (args : List String) : Option String :=
       fList fF is ++ " " ++ fF f ++ " " ++ fF (eclipse f (planck k nu tstar) rp rs))
     pure (fList id out)) args
 
+/-- `c20.emission_nomol consts npPi nus contribs dz dens temps xs wts tstar rp rs` → per wavenumber: intensity per angle,
+    flux, eclipse ratio of the k-table emission path WITHOUT a molecular absorption contribution (`emissionKNoMol`) -/
+def emissionNoMolOp (args : List String) : Option String :=
+  run (do
+    let k ← Taurex.Ops.C02.pcP
+    let npPi ← flt
+    let nus ← listOf flt
+    let cs ← listOf (do
+      let kd ← Taurex.Ops.C02.kindP
+      let m ← listOf (listOf flt)
+      pure (kd, m))
+    let dz ← listOf flt
+    let dens ← listOf flt
+    let temps ← listOf flt
+    let xs ← listOf flt
+    let wts ← listOf flt
+    let tstar ← flt
+    let rp ← flt
+    let rs ← flt
+    let out := (List.range nus.length).map (fun j =>
+      let nu := nus.getD j 0
+      let nonmol := cs.map (fun c => (c.1, c.2.map (fun row => row.getD j 0)))
+      let is := xs.map (fun x => emissionKNoMol k nonmol dz dens temps nu (muInvOf x))
+      let f := fluxOf npPi is xs wts
+      fList fF is ++ " " ++ fF f ++ " " ++ fF (eclipse f (planck k nu tstar) rp rs))
+    pure (fList id out)) args
+
 def ops : List Op :=
   [("c20.trans", transOp), ("c20.transx", transxOp), ("c20.depth", depthOp), ("c20.transk", transkOp),
-   ("c20.emission", emissionOp)]
+   ("c20.emission", emissionOp), ("c20.emission_nomol", emissionNoMolOp)]
 
 end Taurex.Ops.C20
